@@ -97,12 +97,13 @@ class Call:
 class Ob:
     def __init__(self, name, kind, inputs, calls, assume, goal, ub=False, portfolio=None, timeout=None,
                  natives=None, note="", extra_asserts=(), expect_unsat=True, abstract=False, fallback=None,
-                 comm_lemmas=True, also_ub=False):
+                 comm_lemmas=True, also_ub=False, exact=None):
         self.name, self.kind, self.inputs, self.calls = name, kind, list(inputs), list(calls)
         self.assume, self.goal, self.ub = assume, goal, ub
         self.portfolio, self.timeout, self.natives, self.note = portfolio, timeout, natives, note
         self.extra_asserts = list(extra_asserts)
         self.abstract, self.fallback, self.comm_lemmas = abstract, fallback, comm_lemmas
+        self.exact = exact          # optional exact concrete decision of the PROPERTY: f(inputs: {name: int}, outs: [int]) -> bool
         self.also_ub = also_ub      # value obligation that additionally requires "no UB site reachable" on its domain
         self.outcome = None
         self.query = None
@@ -291,8 +292,13 @@ class Run:
         ub_mode = ob.ub
         if ob.also_ub and not ob.ub:
             for c in ob.calls:
-                if any(z3.is_true(self.eval_under(cnd, esubs)) for _, _, cnd in c.res.ub):
+                # sites tagged "ENC:" are not UB: they mark inputs on which a fast-path encoding is not exact; such a
+                # model is decided by running the real code and evaluating the property itself
+                if any((not k.startswith("ENC:")) and z3.is_true(self.eval_under(cnd, esubs)) for k, _, cnd in c.res.ub):
                     ub_mode = True
+        if ob.also_ub and not ub_mode:
+            info["enc_sites"] = [{"unit": c.unit.name, "site": k, "ir": t} for c in ob.calls for k, t, cnd in c.res.ub
+                                 if z3.is_true(self.eval_under(cnd, esubs))]
         if ub_mode:
             sites = []
             for c in ob.calls:
@@ -315,6 +321,15 @@ class Run:
                 info["natives"][key + " verdict"] = "process died"
                 continue
             pre = self.eval_under(ob.assume, st) if ob.assume is not None else z3.BoolVal(True)
+            if ob.exact is not None:
+                # the SMT goal is a sufficient condition; the property itself is decided exactly on the concrete run
+                ins_ = {c.decl().name(): (B.to_signed(model.get(c.decl().name(), 0), c.size()) if not z3.is_int(c)
+                                          else model.get(c.decl().name(), 0)) for c in ob.inputs}
+                ok = ob.exact(ins_, [B.to_signed(o, B.WIDTH[c.unit.ret]) for o, c in zip(outs, ob.calls)])
+                info["natives"][key + " exact-property"] = str(ok)
+                if not ok and not z3.is_false(pre):
+                    reproduced = True
+                continue
             g = self.eval_under(ob.goal, st)
             info["natives"][key + " goal"] = str(g)
             if z3.is_false(g) and not z3.is_false(pre):
@@ -471,6 +486,8 @@ class Run:
                 r["detail"] = o.detail
             if o.outcome is not None and o.outcome.status == "sat":
                 r["model"] = {k: str(v) for k, v in o.outcome.model.items()}
+                if o.replay and o.replay.get("enc_sites"):
+                    r["enc_sites"] = o.replay["enc_sites"]
             if getattr(o, "known_results", None):
                 r["known"] = [{"text": k["entry"]["text"], "status": k["status"], "replay": k.get("replay")}
                               for k in o.known_results]
@@ -510,7 +527,8 @@ class Run:
             json.dump(ev, fh, indent=1, default=str)
 
     # ----------------------------------------------------------------- encoder self-check (differential)
-    def selfcheck_units(self, h, vectors, opts=None, ir="S", natives=(("g++", "-O0"),), std=None):
+    def selfcheck_units(self, h, vectors, opts=None, ir="S", natives=(("g++", "-O0"),), std=None, uf_eval=None,
+                        skip_stubbed=False):
         """vectors: {unit: [[raw args]...]}.  Native result must equal the encoding wherever the encoding reports no UB.
         returns number of mismatches (any mismatch => caller must refuse to give a verdict)."""
         mism = 0
@@ -536,6 +554,8 @@ class Run:
                     if ubhit:
                         continue
                     e = self.eval_under(c.term, ms)
+                    if uf_eval:
+                        e = eval_ufs(e, uf_eval)
                     exp = None
                     if is_num(e):
                         exp = B.to_unsigned(e.as_long(), B.WIDTH[u.ret])
@@ -546,6 +566,31 @@ class Run:
                         self.selfcheck["mismatches"] += 1
                         print("ENCODER-MISMATCH unit=%s args=%s native(%s)=%r encoding=%s" % (uname, v, cfg, out, e))
         return mism
+
+
+def eval_ufs(e, table, rounds=8):
+    """replace applications f(numerals) of the listed uninterpreted functions by python-computed values (encoder self-check
+    only: lets a contract stub be executed concretely)"""
+    for _ in range(rounds):
+        apps = []
+        seen, stack = set(), [e]
+        while stack:
+            t = stack.pop()
+            if t.get_id() in seen:
+                continue
+            seen.add(t.get_id())
+            if z3.is_app(t):
+                if t.decl().name() in table and all(is_num(ch) for ch in t.children()):
+                    apps.append(t)
+                stack.extend(t.children())
+        if not apps:
+            break
+        subs = []
+        for t in apps:
+            v = table[t.decl().name()](*[ch.as_long() for ch in t.children()])
+            subs.append((t, z3.IntVal(v) if z3.is_int(t) else z3.BitVecVal(v, t.size())))
+        e = z3.simplify(z3.substitute(e, *subs))
+    return e
 
 
 def is_num(e):
